@@ -117,8 +117,8 @@ def desc_value(v):
     return ("scalar", type(v).__name__, repr(v))
 
 
-def describe_ref(name, conv):
-    params = REG[name]["params"]
+def describe_ref(name, conv, reg=None):
+    params = (reg or REG)[name]["params"]
     out = []
     for p, a in zip(params, conv):
         if p == VALUE:
@@ -130,10 +130,10 @@ def describe_ref(name, conv):
     return (name, tuple(out))
 
 
-def describe_lib(name, args):
+def describe_lib(name, args, sigs=None):
     import jsonpath_rfc9535 as jp
 
-    params = SIGS[name][0]
+    params = (sigs or SIGS)[name][0]
     out = []
     for p, a in zip(params, args):
         if p == VALUE:
@@ -154,23 +154,28 @@ def describe_lib(name, args):
 
 
 def examine(case):
+    if case.get("kind") == "rebind":
+        return examine_rebind(case)
     q, ast, doc = case["q"], case["ast"], case["doc"]
     if case.get("exotic"):
         from vlib.gen import values as V
         doc = V.exotic(doc, case["exotic"])
+    return compare_run(q, ast, doc, REG, SIGS, lambda: lib.find(q, doc, lib_env()))
+
+
+def compare_run(q, ast, doc, REG, SIGS, run):  # noqa: N803 - same names as the module-level tables on purpose
     log = []
     e = ev.Evaluator(REG, call_log=log)
     expected = e.query(ast, doc)
-    env = lib_env()
     del _LOG[:]
-    status, got = lib.find(q, doc, env)
+    status, got = run()
     lib_calls = [c for c in _LOG]
     del _LOG[:]
     if status == "err":
         return {"bucket": f"raised:{got['type']}:{got['frame']}", "what": f"find({q!r}) raised {got['type']}: {got['str']}",
                 "expected": ev.show_nodes(expected), "observed": got}
-    ref_multi = collections.Counter(describe_ref(n, c) for n, c in log if n in SIGS)
-    lib_multi = collections.Counter(describe_lib(n, a) for n, a in lib_calls)
+    ref_multi = collections.Counter(describe_ref(n, c, REG) for n, c in log if n in SIGS)
+    lib_multi = collections.Counter(describe_lib(n, a, SIGS) for n, a in lib_calls)
     extra = lib_multi - ref_multi
     if extra:
         (name, args), _ = next(iter(sorted(extra.items(), key=repr)))
@@ -186,18 +191,167 @@ def examine(case):
     return None
 
 
+
+PATHS = ("env.find", "env.finditer", "env.compile.find", "env.compile.apply", "module.find", "module.finditer", "module.compile.find")
+
+
+def examine_rebind(case):
+    """One name, one text, one environment: the name is bound to a function with one declared signature, the text is
+    used, the declared signature changes (another object registered, or the same object's declarations changed in
+    place), the same text is used again.  Every use is judged against the signature in force at that moment."""
+    import jsonpath_rfc9535 as jp
+    from jsonpath_rfc9535.function_extensions import ExpressionType, FilterFunction
+    from vlib.ref import typecheck
+
+    tmap = {VALUE: ExpressionType.VALUE, LOGICAL: ExpressionType.LOGICAL, NODES: ExpressionType.NODES}
+    back = {v: k for k, v in tmap.items()}
+    q, ast, doc = case["q"], case["ast"], case["doc"]
+
+    def mk(sig):
+        class F(FilterFunction):
+            arg_types = [tmap[p] for p in SIGS[sig][0]]
+            return_type = tmap[SIGS[sig][1]]
+
+            def __call__(self, *a):
+                _LOG.append(("fx", a))
+                return semantic([back[t] for t in self.arg_types], back[self.return_type], a, jp.NOTHING, jp.JSONPathNodeList)
+        return F()
+
+    def model(sig):
+        params, ret = SIGS[sig]
+        reg = dict(BUILTINS)
+        reg["fx"] = {"params": params, "ret": ret, "impl": (lambda *a, _p=params, _r=ret: semantic(_p, _r, a, NOTHING, list))}
+        return reg, {"fx": (params, ret)}
+
+    def use(env, path):
+        def run():
+            try:
+                if path == "env.find":
+                    return "ok", lib.nodes_of(env.find(q, doc))
+                if path == "env.finditer":
+                    return "ok", lib.nodes_of(list(env.finditer(q, doc)))
+                if path == "env.compile.find":
+                    return "ok", lib.nodes_of(env.compile(q).find(doc))
+                if path == "env.compile.apply":
+                    return "ok", lib.nodes_of(env.compile(q).apply(doc))
+                if path == "module.find":
+                    return "ok", lib.nodes_of(jp.find(q, doc))
+                if path == "module.finditer":
+                    return "ok", lib.nodes_of(list(jp.finditer(q, doc)))
+                return "ok", lib.nodes_of(jp.compile(q).find(doc))
+            except Exception as e:  # noqa: BLE001
+                return "err", lib.exc_info(e)
+        return run
+
+    def judge(env, sig, path, stage):
+        reg, sigs = model(sig)
+        tc = typecheck.check(ast, reg)
+        if tc is not None:
+            del _LOG[:]
+            st, got = use(env, path)()
+            calls = len(_LOG)
+            del _LOG[:]
+            if st == "ok":
+                return {"bucket": "rebind:ill-typed-accepted", "what": f"{stage}: with fx declared {SIGS[sig]}, {path}({q!r}) is not well-typed ({tc}) "
+                        f"but was accepted ({calls} calls made)", "expected": "JSONPathTypeError", "observed": "accepted"}
+            if not got["jsonpath_error"]:
+                return {"bucket": f"raised:{got['type']}:{got['frame']}", "what": f"{stage}: {path}({q!r}) raised {got['type']}", "expected": "JSONPathTypeError", "observed": got}
+            return None
+        f = compare_run(q, ast, doc, reg, sigs, use(env, path))
+        if f:
+            f["bucket"] = "rebind:" + f["bucket"]
+            f["what"] = f"{stage}: with fx declared {SIGS[sig]}, via {path}: " + f["what"]
+        return f
+
+    def go(env):
+        fobj = mk(case["s1"])
+        env.function_extensions["fx"] = fobj
+        for path in case["paths"][0]:
+            f = judge(env, case["s1"], path, "first binding")
+            if f:
+                return f
+        params, ret = SIGS[case["s2"]]
+        if case["via"] == "replace":
+            env.function_extensions["fx"] = mk(case["s2"])
+        elif case["via"] == "instance-attr":
+            fobj.arg_types = [tmap[p] for p in params]
+            fobj.return_type = tmap[ret]
+        else:
+            type(fobj).arg_types = [tmap[p] for p in params]
+            type(fobj).return_type = tmap[ret]
+        for path in case["paths"][1]:
+            f = judge(env, case["s2"], path, f"after the declaration changed ({case['via']})")
+            if f:
+                return f
+        return None
+
+    if case["target"] == "default":
+        with lib.default_env_sandbox() as env:
+            return go(env)
+    return go(jp.JSONPathEnvironment())
+
+
+def _with_interpreter_variants(specs, tier, n_small, extra=None):
+    """The same shard body in child interpreters started with other flags / environment variables."""
+    from vlib.runner import INTERPRETERS
+    base = dict(extra or {})
+    for name in INTERPRETERS:
+        s = dict(base, n=n_small if tier == "quick" else n_small * 6, interp=name)
+        specs.append(s)
+    return specs
+
+
 def plan(tier, seed):
     if tier == "quick":
-        return [{"n": 800} for _ in range(16)]
-    return [{"n": 8000} for _ in range(16)]
+        return _with_interpreter_variants([{"n": 800} for _ in range(16)], tier, 100)
+    return _with_interpreter_variants([{"n": 8000} for _ in range(16)], tier, 100)
 
 
 def run_shard(spec, shard):
     tier = spec["tier"]
     names = ["a", "b", "c", "d"]
 
+    def rebind(r, doc):
+        s1 = r.choice(sorted(k for k in SIGS if SIGS[k][0]))
+        same_arity = [k for k in SIGS if len(SIGS[k][0]) == len(SIGS[s1][0]) and k != s1]
+        s2 = r.choice(same_arity) if r.random() < 0.85 else r.choice(sorted(SIGS))
+        reg = dict(BUILTINS)
+        reg["fx"] = {"params": SIGS[s1][0], "ret": SIGS[s1][1], "impl": REG[s1]["impl"]}
+        dn, ds, dnum = Q.pools(doc)
+        g = Q.QGen(r, names=list(dict.fromkeys(dn))[:8] + names[:2], strings=list(dict.fromkeys(ds))[:6] + ["a", ""],
+                   registry={"fx": reg["fx"], "count": reg["count"], "length": reg["length"]}, filters=True, max_filter_depth=2, numbers=dnum[:8])
+        g.doc = doc
+        g.evalr = ev.Evaluator(reg)
+        base = g.guided_query(doc, 0, 1, hit_p=0.9)
+        seg = diff.guided_filter_segment(r, g, base[2], doc, registry=reg, need="call", tries=10)
+        if seg is None:
+            return
+        ast = ["q", "$", base[2] + [seg]]
+        if diff.arg_starts_with_not_or_paren(ast) or not any(x and x[0] == "call" and x[1] == "fx" for x in Q.walk(ast)):
+            return
+        text = Q.Renderer(r, 0.1).query(ast)
+        ast = Q.strip_hints(ast)
+        from vlib.ref import abnf
+        res = abnf.classify(text)
+        if res.verdict != abnf.VALID or res.ast != ast:
+            return
+        target = r.choice(["fresh", "default"])
+        pool = [p for p in PATHS if target == "default" or p.startswith("env.")]
+        case = {"kind": "rebind", "q": text, "ast": ast, "doc": doc, "s1": s1, "s2": s2, "target": target,
+                "via": r.choice(["replace", "instance-attr", "class-attr"]),
+                "paths": [r.sample(pool, r.randint(1, 2)), r.sample(pool, r.randint(1, 3))]}
+        nested = any(x and x[0] == "call" and any(a and a[0] == "call" for a in x[2]) for x in Q.walk(ast))
+        shard.case(key=(text, s1, s2, case["via"], target, doc), nontrivial=True,
+                   classes={"rebind", "rebind-via:" + case["via"], "rebind-target:" + target} | ({"rebind:nested-call"} if nested else set()),
+                   sample={"kind": "rebind", "q": text, "from": SIGS[s1], "to": SIGS[s2], "via": case["via"], "target": target})
+        f = examine(case)
+        if f:
+            shard.fail(f["bucket"], case, f)
+
     def body(r):
         doc = diff.make_doc(r, tier, names=names, falsy_bias=0.3)
+        if r.random() < 0.12:
+            return rebind(r, doc)
         # a registry restricted to a few probes + the built-ins keeps calls frequent
         chosen = r.sample(sorted(SIGS), 6) + ["length", "count", "value"]
         reg = {k: REG[k] for k in chosen}
@@ -290,6 +444,8 @@ def run_shard(spec, shard):
 
 
 def minimise(case, failure, tier):
+    if case.get("kind") == "rebind":
+        return case, failure
     return diff.minimise_qd(case, failure, examine, registry=REG)
 
 
